@@ -521,6 +521,17 @@ def bound_twice_cases():
                 yield {"kind": "matrix", "main": main, "partials": {"p": "[{{ b }}{{ " + name + " }}]"}, "datas": datas, "async": False, "async_analysis": len(main) % 2 == 0}
 
 
+def nested_partial_scope_cases():
+    """A rendered (isolated) partial that itself extends a base or includes a further partial, reached from places of the root where
+    names are bound and from places where they are not: what the inner templates read comes from the globals either way."""
+    datas = [V.enc({"xs": [1, 2], "x": "GX", "c": "GC", "y": "GY"})]
+    inner = {"child": "{% extends 'base' %}{% block b %}!{{ y }}{% endblock %}", "base": "<{{ x }}{% block b %}{% endblock %}{% assign c = 'from-base' %}>", "inc": "{% include 'leafx' %}", "leafx": "({{ x | upcase }}{{ c }})"}
+    for binder in ("{% for x in xs %}@{% endfor %}", "{% with x: 1, y: 2 %}@{% endwith %}", "{% assign x = 1 %}@", "{% capture y %}q{% endcapture %}@", "@"):
+        for call in ("{% render 'child' %}", "{% render 'inc' %}", "{% render 'child', y: 1 %}", "{% render 'inc', c: 2 %}"):
+            for tail in ("|" + call, "[{{ c }}]", "|" + call + "[{{ x }}{{ y }}]"):
+                yield {"kind": "matrix", "main": binder.replace("@", call) + tail, "partials": dict(inner), "datas": datas, "async": False, "async_analysis": len(binder) % 2 == 0}
+
+
 def reentrant_cases():
     """A partial that re-enters itself (or its includer) with other arguments before it reaches a further partial: whatever pass of the
     analysis gets to that further partial first, its variables, filters and tags are what a render evaluates."""
@@ -545,7 +556,7 @@ def reentrant_cases():
 
 def cases(ctx: core.Ctx):
     rng = ctx.rng("cases")
-    for i, c in enumerate(itertools.chain(twice_in_block_cases(), bound_twice_cases(), reentrant_cases())):
+    for i, c in enumerate(itertools.chain(twice_in_block_cases(), bound_twice_cases(), reentrant_cases(), nested_partial_scope_cases())):
         if i % ctx.nshards == ctx.shard:
             yield c
     for i in range(ctx.budget(3000, 400_000)):
